@@ -456,6 +456,7 @@ def run(ctx):
     ctx.rule('C12.STALELOCAL', lambda: rule_stale_local(ctx), 2)
     from . import c11 as _c11
     ctx.rule('C12.EXTEND', lambda: _c11.rule_extend(ctx), 5)
+    ctx.rule('C11.RETRYRAISE', lambda: _c11.rule_retry_raise(ctx), 2)
     ctx.rule('C12.TRUNCATE', lambda: _c11.rule_truncate(ctx, 'C12.TRUNCATE'), 2)
     ctx.rule('C12.INT', lambda: rule_int_all(ctx), 2)
     ctx.rule('C12.ONEAPPEND', lambda: rule_branch_loop(ctx), 7)
